@@ -142,6 +142,10 @@ G14 == [name |-> "g14", params |-> <<"i64", "i64", "i64", "i64", "blk1_16">>, re
         insns |-> <<InsIn("add", Reg(6), <<Mem("i64", 0, 5, 0, 1), Mem("i64", 8, 5, 0, 1)>>), InsIn("add", Reg(6), <<Reg(6), Reg(1)>>),
                     InsIn("sub", Reg(6), <<Reg(6), Reg(4)>>), InsIn("mov", Mem("i64", 8, 5, 0, 1), <<Imm(Ones64)>>),
                     [op |-> "ret", s |-> <<Reg(6)>>]>>]
+(* g15 (p x, i64 v) -> i64 : x is the address of a variable of the caller (addr insn): returns the old value + v, stores v *)
+G15 == [name |-> "g15", params |-> <<"p", "i64">>, res |-> <<"i64">>, regty |-> <<"i", "i", "i">>,
+        insns |-> <<InsIn("mov", Reg(3), <<Mem("i64", 0, 1, 0, 1)>>), InsIn("add", Reg(3), <<Reg(3), Reg(2)>>),
+                    InsIn("mov", Mem("i64", 0, 1, 0, 1), <<Reg(2)>>), [op |-> "ret", s |-> <<Reg(3)>>]>>]
 FImm(fmt, x) == [k |-> "fimm", fmt |-> fmt, x |-> x]
 FImmVals == {Fin(0, 1, 0), Fin(1, 3, -1), Fin(0, 5, -3), Fin(0, 3, 20), Fin(0, 13, -4), FZero(0), Fin(0, 3, -40), Fin(1, 7, -33)}
 
@@ -177,14 +181,14 @@ Fmts == {"d", "f", "ld"}
 Pfx(fmt) == fmt
 
 KindsInt == {"ibin", "iun", "shift", "div", "br2", "br1", "loop", "ovf", "switch", "callg1", "callg2", "ext", "alloca", "jmpi", "idx",
-             "pld", "pst", "alloca2", "gcall", "dload", "lref1", "lref2"}
-KindsFp == {"fbin", "fcmp", "fbr", "i2f", "f2i", "fmovm", "f2f", "callg3"}
+             "pld", "pst", "alloca2", "gcall", "dload", "lref1", "lref2", "addrst", "addrld", "addrcall"}
+KindsFp == {"fbin", "fcmp", "fbr", "i2f", "f2i", "fmovm", "f2f", "callg3", "addrfp"}
 (* "link": the constructs MIR_link rewrites (calls to inline, allocas, jumps and branch chains, memory operands) *)
 KindsLink == {"callg1", "callg2", "callg3", "ext", "alloca", "br2", "br1", "loop", "switch", "ibin", "idx", "jmpi", "ovf", "calla",
-              "callg6", "callg7", "gcall", "rblk", "blkv", "alloca2", "lref1", "lref2"}
+              "callg6", "callg7", "gcall", "rblk", "blkv", "alloca2", "lref1", "lref2", "addrst", "addrcall"}
 KindsOf == IF Vocab = "int" THEN KindsInt ELSE IF Vocab = "link" THEN KindsLink
          ELSE IF Vocab = "exec" THEN {"callg1", "callg2", "callg3", "calla", "ext", "icall", "icall5", "cb", "jmpi", "switch", "br2", "loop",
-                                      "ibin", "alloca", "fbin", "idx", "callg6", "callg7", "gcall", "rblk", "blkv", "callg12", "callg13", "callg14", "fmovm", "lref1", "lref2"}
+                                      "ibin", "alloca", "fbin", "idx", "callg6", "callg7", "gcall", "rblk", "blkv", "callg12", "callg13", "callg14", "fmovm", "lref1", "lref2", "addrcall", "addrld"}
          ELSE IF Vocab = "single" THEN (KindsInt \cup KindsFp \cup {"calla", "callg6", "callg7", "rblk", "blkv", "callg12", "callg13",
                                                                       "callg14", "icall", "icall5"}) \ {"callg3", "lref1", "lref2"}   \* functions with at most one result
          ELSE KindsInt \cup KindsFp \cup {"calla", "callg6", "callg7", "rblk", "blkv", "callg12", "callg13", "callg14"}
@@ -211,6 +215,10 @@ Holes(k) ==
     [] k = "lref1" -> <<"fwd">>
     [] k = "lref2" -> <<"fwd", "anyslot">>
     [] k = "idx" -> <<"isrcreg", "imemty", "ireg", "scale">>
+    [] k = "addrst" -> <<"ireg", "aty", "isrc", "ireg">>
+    [] k = "addrld" -> <<"ireg", "aty", "ireg">>
+    [] k = "addrcall" -> <<"ireg", "ireg", "isrc">>
+    [] k = "addrfp" -> <<"fmt", "fsrc">>
     [] k = "fbin" -> <<"fmt", "fop", "fdst", "fsrc", "fsrc">>
     [] k = "fcmp" -> <<"fmt", "fcmp", "ireg", "fsrc", "fsrc">>
     [] k = "fbr" -> <<"fmt", "fcmp", "fwd", "fsrc", "fsrc">>
@@ -256,11 +264,16 @@ Dom(h) ==
     [] h = "fdst" -> FDst(CurFmt) [] h = "fsrc" -> FSrc(CurFmt)
     [] h = "i2fop" -> {"i2", "ui2"}
     [] h = "preg" -> PRegs
+    [] h = "aty" -> {[insn |-> "addr", ty |-> "i64"], [insn |-> "addr32", ty |-> "i32"], [insn |-> "addr32", ty |-> "u32"],
+                     [insn |-> "addr16", ty |-> "i16"], [insn |-> "addr16", ty |-> "u16"], [insn |-> "addr8", ty |-> "i8"],
+                     [insn |-> "addr8", ty |-> "u8"]}
     [] h = "dmem" -> {Mem("i32", 0, RTMP, 0, 1), Mem("i32", 4, RTMP, 0, 1), Mem("u32", 8, RTMP, 0, 1), Mem("i64", 12, RTMP, 0, 1),
                       Mem("u8", 1, RTMP, 0, 1), Mem("i16", 6, RTMP, 0, 1)}
     [] h = "dsrc" -> {Reg(r) : r \in DRegs}
     [] h = "subld" -> {Mem("u8", 12, PA, 0, 1), Mem("u16", 14, PA, 0, 1), Mem("i32", 12, PA, 0, 1), Mem("u8", 9, PA, 0, 1), Mem("i16", 10, PA, 0, 1)}
 
+ExtOf(ty) == CASE ty = "i8" -> "ext8" [] ty = "u8" -> "uext8" [] ty = "i16" -> "ext16" [] ty = "u16" -> "uext16"
+               [] ty = "i32" -> "ext32" [] ty = "u32" -> "uext32" [] OTHER -> "mov"
 (* instruction records of a filled template; labels are SLOT numbers until Finalize *)
 NextSlot == slot + 1
 HasField(I, f) == f \in DOMAIN I
@@ -287,6 +300,16 @@ Render(k, v) ==
                          InsIn("mov", Mem("i32", 4, PA, 0, 1), <<Imm(FromNat(77))>>),
                          InsIn("add", v[3], <<Mem("i64", 8, PA, 0, 1), Mem("u32", 4, PA, 0, 1)>>)>>
     [] k = "jmpi" -> <<[op |-> "laddr", d |-> Reg(RTMP2), l |-> v[1]], [op |-> "jmpi", s |-> <<Reg(RTMP2)>>]>>
+    \* variables whose address is taken: store / load through the address (every width), a callee writing the caller's
+    \* variable, an FP variable written through its address; the variable stays an ordinary register everywhere else
+    \* after a narrow store only the stored bytes of the variable are defined: it is re-extended from its own width, as a compiler does
+    [] k = "addrst" -> <<InsIn(v[2].insn, Reg(RTMP), <<v[1]>>), InsIn("mov", Mem(v[2].ty, 0, RTMP, 0, 1), <<v[3]>>),
+                         InsIn(ExtOf(v[2].ty), v[1], <<v[1]>>), InsIn("add", v[4], <<v[1], Imm(One64)>>)>>
+    [] k = "addrld" -> <<InsIn(v[2].insn, Reg(RTMP), <<v[1]>>), InsIn("mov", v[3], <<Mem(v[2].ty, 0, RTMP, 0, 1)>>)>>
+    [] k = "addrcall" -> <<InsIn("addr", Reg(RTMP), <<v[1]>>),
+                           [op |-> "call", callee |-> [k |-> "func", f |-> 16], res |-> <<v[2]>>, args |-> <<Reg(RTMP), v[3]>>]>>
+    [] k = "addrfp" -> LET fr == Reg(CHOOSE r \in FpRegsOf(v[1]) : \A q \in FpRegsOf(v[1]) : r <= q) IN
+                       <<InsIn("addr", Reg(RTMP), <<fr>>), InsIn(v[1] \o "mov", Mem(v[1], 0, RTMP, 0, 1), <<v[2]>>)>>
     \* computed jumps through label-reference data items of the function: the n-th lref slot owns bytes 8n..8n+7 of section lr_main;
     \* lref1: item `lref target` holds the label address; lref2: item `lref target, base` holds the distance from label base
     [] k = "lref1" -> <<InsIn("mov", Reg(RTMP), <<DRef4>>), InsIn("mov", Reg(RTMP2), <<Mem("i64", 8 * NLr, RTMP, 0, 1)>>),
@@ -407,26 +430,30 @@ LrSeq == LET RECURSIVE Coll(_, _)
              Coll(i, acc) == IF i > Len(body) THEN acc
                              ELSE Coll(i + 1, IF HasField(body[i], "lr") THEN Append(acc, Resolve(body[i]).lr) ELSE acc)
          IN Coll(1, <<>>)
-LrCells == LET RECURSIVE Cat(_, _)
-               Cat(i, acc) == IF i > Len(LrSeq) THEN acc
-                              ELSE Cat(i + 1, acc \o [j \in 1..8 |-> IF LrSeq[i].l2 = 0 THEN [k |-> "l", i |-> j, f |-> 1, l |-> LrSeq[i].l]
-                                                                       ELSE [k |-> "ld", i |-> j, f |-> 1, a |-> LrSeq[i].l, b |-> LrSeq[i].l2]])
-           IN Cat(1, <<>>)
+LrCellsOf(lrs) == LET RECURSIVE Cat(_, _)
+                     Cat(i, acc) == IF i > Len(lrs) THEN acc
+                                    ELSE Cat(i + 1, acc \o [j \in 1..8 |-> IF lrs[i].l2 = 0 THEN [k |-> "l", i |-> j, f |-> 1, l |-> lrs[i].l]
+                                                                             ELSE [k |-> "ld", i |-> j, f |-> 1, a |-> lrs[i].l, b |-> lrs[i].l2]])
+                 IN Cat(1, <<>>)
+LrCells == LrCellsOf(LrSeq)
+(* the memory a program starts with: caller's buffer, module bss item gdat, data section gd, main's lref section *)
+InitMem(buf, lrs) ==
+  <<[sz |-> BufSize, live |-> TRUE, cells |-> buf],
+    [sz |-> 64, live |-> TRUE, cells |-> [i \in 1..64 |-> ByteC(0)]],
+    [sz |-> 20, live |-> TRUE,
+     cells |-> [i \in 1..20 |-> ByteC((<<11, 0, 0, 0>> \o <<254, 255, 255, 255>> \o <<255, 255, 255, 127>> \o <<5, 0, 0, 0, 0, 0, 0, 0>>)[i])]],
+    [sz |-> 8 * Len(lrs), live |-> TRUE, cells |-> LrCellsOf(lrs)]>>
+InitFrames == <<[f |-> 1, id |-> 0, pc |-> 1, regs |-> [r \in 1..Len(MainRegTy) |-> IF r = 1 THEN PtrV(1, 0) ELSE UndefV],
+                 base |-> 4, ovf |-> NoOvf]>>
 MainFunc ==
   [name |-> "main", params |-> <<"p">>, res |-> <<"i64">>, regty |-> MainRegTy, lrefs |-> LrSeq,
    insns |-> Prologue \o [i \in 1..Len(body) |-> Resolve(body[i])] \o Epilogue]
 Finalize ==
   /\ phase = "build" /\ slot = NSlots + 1 /\ cur.kind = ""
   /\ phase' = "run"
-  /\ prog' = [funcs |-> <<MainFunc, G1, G2, G3, G4, G5, G6, G7, G8, G9, G10, G11, G12, G13, G14>>]
-  /\ mem' = <<[sz |-> BufSize, live |-> TRUE, cells |-> InitBuf],
-              [sz |-> 64, live |-> TRUE, cells |-> [i \in 1..64 |-> ByteC(0)]],          \* block 2: the module's bss item gdat
-              [sz |-> 20, live |-> TRUE,                                                    \* block 3: data section gd
-               cells |-> [i \in 1..20 |-> ByteC((<<11, 0, 0, 0>> \o <<254, 255, 255, 255>> \o <<255, 255, 255, 127>>
-                                                 \o <<5, 0, 0, 0, 0, 0, 0, 0>>)[i])]],
-              [sz |-> 8 * Len(LrSeq), live |-> TRUE, cells |-> LrCells]>>               \* block 4: main's lref section lr_main
-  /\ frames' = <<[f |-> 1, pc |-> 1, regs |-> [r \in 1..Len(MainRegTy) |-> IF r = 1 THEN PtrV(1, 0) ELSE UndefV],
-                  base |-> 4, ovf |-> NoOvf]>>
+  /\ prog' = [funcs |-> <<MainFunc, G1, G2, G3, G4, G5, G6, G7, G8, G9, G10, G11, G12, G13, G14, G15>>]
+  /\ mem' = InitMem(InitBuf, LrSeq)
+  /\ frames' = InitFrames
   /\ status' = "run"
   /\ UNCHANGED <<log, why, result, steps, slot, cur, body, slotpc, inputs, haveA>>
 
@@ -462,5 +489,5 @@ RegsTyped ==
   status = "run" =>
     \A i \in 1..Len(frames) : \A r \in 1..Len(frames[i].regs) :
       LET v == frames[i].regs[r]  ty == prog.funcs[frames[i].f].regty[r] IN
-      v.t = "u" \/ (ty = "i" /\ v.t \in {"i", "p", "l", "fn", "ld"}) \/ (ty # "i" /\ v.t = "f" /\ InFmt(v.x, ty))
+      v.t = "u" \/ (ty = "i" /\ v.t \in {"i", "p", "l", "fn", "ld", "ra", "nv"}) \/ (ty # "i" /\ v.t = "f" /\ InFmt(v.x, ty))
 =============================================================================
